@@ -28,6 +28,16 @@ def udpcl_polling_cases(chk, sigtable):
         ('nodeid-missing', {3: 1000}),
         ('interval-huge', {3: 2 ** 40, 4: 'dtn://peer/'}),
         ('interval-negative', {3: -5, 4: 'dtn://peer/'}),
+        ('interval-zero', {3: 0, 4: 'dtn://peer/'}),
+        ('interval-minus-one', {3: -1, 4: 'dtn://peer/'}),
+        ('interval-int32-max', {3: 2 ** 31 - 1, 4: 'dtn://peer/'}),
+        ('interval-int32-max-plus-1', {3: 2 ** 31, 4: 'dtn://peer/'}),
+        ('interval-int32-max-plus-2', {3: 2 ** 31 + 1, 4: 'dtn://peer/'}),
+        ('interval-uint32-max', {3: 2 ** 32 - 1, 4: 'dtn://peer/'}),
+        ('interval-float', {3: 1.5, 4: 'dtn://peer/'}),
+        ('interval-text', {3: '1000', 4: 'dtn://peer/'}),
+        ('nodeid-empty', {3: 1000, 4: ''}),
+        ('nodeid-list', {3: 1000, 4: ['dtn://peer/']}),
     ]
     for name, extmap in cases:
         agent = ua.Agent(cfg, bus_kwargs=dict(conn=None, object_path='/verif/udpcl'))
@@ -40,6 +50,9 @@ def udpcl_polling_cases(chk, sigtable):
         except Exception as err:
             esc = type(err).__name__
         chk.case({'udpcl_polling': name}, sample=(name == 'nodeid-int'))
+        if esc is not None:
+            bad.append(('C18:udpcl-polling-escape-%s' % name, 'exception %s escapes the receive path for a peer-supplied extension map %r' % (esc, extmap),
+                        {'extmap': repr(extmap)}))
         chk.count('udpcl:' + name)
         import tcpcl_sim as ts
         for (_p, sname, _s, args) in agent._verif_signals[n0:]:
@@ -81,6 +94,26 @@ def run(chk):
             sc.compare_with_model(chk, sims)
             sims = []
     sc.compare_with_model(chk, sims)
+    # an uncooperative peer (refusals, early/unknown acknowledgements, out-of-place messages) against one
+    # endpoint: the D-Bus view must stay typed and consistent there too
+    from props import c17
+    advs = []
+    msgs = dict(c17.adversarial_msgs())
+    combos = [(st, nm) for st in ('two_tx', 'await_ack', 'mid_tx', 'mid_rx', 'established')
+              for nm in ('refuse_own', 'refuse_unknown', 'ack_unknown', 'ack_own_end_early', 'seg_nostart_unknown', 'msg_reject') if nm in msgs]
+    for passive in (False, True):
+        for (st, nm) in combos:
+            res = c17.run_case(chk, rng, passive, st, [(nm, msgs[nm])], cuts=None)
+            if res is None:
+                continue
+            adv = res[0]
+            chk.case({'adversary': True, 'passive': passive, 'state': st, 'msg': nm})
+            chk.count('adversary:' + st)
+            bad = tm.mon_types(adv.sim, sigtable) + tm.mon_c18_queues(adv.sim)
+            for (sig, what) in bad:
+                chk.violation(sig, what, {'passive': passive, 'state': st, 'msg': nm, 'x_cfg': adv.x.model_cfg(), 'x_events': adv.x.events})
+            advs.append((adv, '%s %s %s' % ('passive' if passive else 'active', st, nm)))
+    c17.compare(chk, advs)
     for (sig, what, rep) in udpcl_polling_cases(chk, sigtable):
         chk.violation(sig, what, rep)
     chk.assumptions += ['conformance is to a transcription of dbus-python marshalling rules (the library is absent from the sandbox)',
